@@ -1,6 +1,7 @@
 (* C04 — decoding is total, stays inside the buffer, and always makes progress.
    Statements only; proofs live in Portus.Wire.CodecFacts. *)
-From Portus Require Import Codec CodecSpec CodecFacts.
+From Portus Require Import Codec CodecSpec CodecFacts WireTie.
+From PortusGen Require Import WireTables.
 
 (* For every byte string the decoder's result satisfies the executable statement of the
    property: no panic; an Ok result consumed between 1 and the buffer length (0 only for the
@@ -36,3 +37,22 @@ Proof. vm_compute. reflexivity. Qed.
 (* a declared length shorter than the fixed fields is an error, not a panic *)
 Example C04_example_short_create : from_buf (ser_header 0 20 7 ++ repeat 1 12) = Err.
 Proof. vm_compute. reflexivity. Qed.
+
+(* translator obligations (lib/gen_wiretables.py reads src/serialize/*.rs on every run): the type
+   codes, the header layout and the fixed payload prefixes of the source are the model's *)
+Theorem C04_source_type_codes_are_the_models :
+  (impl_code_create, impl_code_measure, impl_code_install, impl_code_update, impl_code_changeprog, impl_code_ready) =
+  (T_CREATE, T_MEASURE, T_INSTALL, T_UPDATE, T_CHANGEPROG, T_READY).
+Proof. exact type_codes_tie. Qed.
+Print Assumptions C04_source_type_codes_are_the_models.
+
+Theorem C04_source_header_layout_is_the_models :
+  impl_hdr_length = N.of_nat HDR_LENGTH /\ impl_hdr_typ = (0, 2) /\ impl_hdr_len = (2, 4) /\ impl_hdr_sid = (4, 8).
+Proof. exact header_layout_tie. Qed.
+Print Assumptions C04_source_header_layout_is_the_models.
+
+Theorem C04_source_payload_prefixes_are_the_models :
+  (impl_prefix_create, impl_prefix_measure, impl_prefix_update, impl_prefix_ready) =
+  (N.of_nat (u32s_width T_CREATE), N.of_nat (u32s_width T_MEASURE), N.of_nat (u32s_width T_UPDATE), N.of_nat (u32s_width T_READY)).
+Proof. exact prefix_widths_tie. Qed.
+Print Assumptions C04_source_payload_prefixes_are_the_models.
